@@ -46,7 +46,7 @@ def items(tier, seed):
         for a, b in pairs:
             out.append({"op": rng.choice(BINOPS), "a": a, "b": b})
         # the pairs known to exercise unit matching with exponents on caller-owned numpy storage are always in
-        for a, b in (("a_np_m", "a_np_cm2"), ("a_np_cm2", "a_np_m"), ("a_np_cm2", "a_list_m2"), ("a_list_m2", "a_np_cm2"), ("s_m2", "s_cm2"), ("f_np_cm", "a_np_m")):
+        for a, b in (("s_two_cats", "s_m2"), ("s_two_cats", "s_cm2"), ("s_m2", "s_two_cats"), ("s_two_cats", "s_two_cats"), ("a_np_m", "a_np_cm2"), ("a_np_cm2", "a_np_m"), ("a_np_cm2", "a_list_m2"), ("a_list_m2", "a_np_cm2"), ("s_m2", "s_cm2"), ("f_np_cm", "a_np_m")):
             for o in ("add", "mul", "div", "sub"):
                 out.append({"op": o, "a": a, "b": b})
     else:
